@@ -48,6 +48,10 @@ func c20Child(args []string) {
 	seed, _ := strconv.ParseInt(args[0], 10, 64)
 	seconds, _ := strconv.Atoi(args[1])
 	out := args[2]
+	mix := "mixed"
+	if len(args) > 3 {
+		mix = args[3]
+	}
 	hx.QuietPikeLog("")
 	hx.UninstallPoints() // no callbacks: the hooks add no synchronisation
 	rnd := rand.New(rand.NewSource(seed))
@@ -73,6 +77,9 @@ func c20Child(args []string) {
 		if strings.HasPrefix(u.Path, "/c20/u/") {
 			cc = "no-cache"
 		}
+		if strings.HasPrefix(u.Path, "/c20/warm/") {
+			cc = "max-age=300" // long-lived: resident (or evicted and reloaded) for the whole run, mostly hits
+		}
 		h := [][2]string{{"Cache-Control", cc}, {"Content-Type", "text/plain"}, {"X-Echo-Uri", f.URI}}
 		if f.Method != "GET" && f.Method != "HEAD" {
 			return &hx.Reply{Status: 200, Header: h, Body: []byte("ack")}
@@ -93,15 +100,24 @@ func c20Child(args []string) {
 		}
 		return hx.StoreFault{}
 	}
+	var reloadGen atomic.Int64
 	mkCfg := func(variant int) *config.PikeConfig {
 		cfg := &config.PikeConfig{
 			Compresses: []config.CompressConfig{{Name: "cmp", Levels: map[string]uint{"gzip": uint(1 + variant*5), "br": uint(1 + variant*4)}}},
-			Caches:     []config.CacheConfig{{Name: "c20a", Size: 64, HitForPass: "1s", Store: "mem://c20/a"}, {Name: "c20b", Size: 5000, HitForPass: "1s"}},
+			Caches:     []config.CacheConfig{{Name: "c20a", Size: 64, HitForPass: "1s", Store: "mem://c20/a"}, {Name: "c20b", Size: 400, HitForPass: "1s"}},
 			Upstreams: []config.UpstreamConfig{{Name: "u0", Servers: []config.UpstreamServerConfig{{Addr: farm.Origins[0].URL()}, {Addr: farm.Origins[1].URL()}}},
 				{Name: "u1", Servers: []config.UpstreamServerConfig{{Addr: farm.Origins[variant%2].URL()}}}},
 			Locations: []config.LocationConfig{{Name: "l0", Upstream: "u0", Prefixes: []string{"/c20/"}}, {Name: "l1", Upstream: "u1", Prefixes: []string{"/c20/u/"}}},
 			Servers: []config.ServerConfig{{Addr: addrs[0], Locations: []string{"l0", "l1"}, Cache: "c20a", Compress: "cmp"},
 				{Addr: addrs[1], Locations: []string{"l0"}, Cache: "c20b"}},
+		}
+		if variant == 1 {
+			// levels for encodings pike does not produce are legal in a configuration (ignored)
+			cfg.Compresses[0].Levels["zst"] = 3
+			cfg.Compresses[0].Levels["lz4"] = 1
+		}
+		if n := reloadGen.Add(1); n%4 != 0 {
+			cfg.Compresses[0].Levels[fmt.Sprintf("x-enc%d", n)] = 1 // a name never seen before
 		}
 		if variant == 1 {
 			cfg.Servers[0].CompressMinLength = "500"
@@ -173,11 +189,19 @@ func c20Child(args []string) {
 			var n, nm int64
 			for i := 0; !stop.Load(); i++ {
 				var uri string
-				switch lr.Intn(10) {
+				pick := lr.Intn(10)
+				if mix == "warm" && lr.Intn(10) != 0 {
+					pick = 3 // nine in ten requests on the warm key space: high hit ratio under constant eviction
+				}
+				switch pick {
 				case 0, 1:
-					uri = fmt.Sprintf("/c20/cold/%d/%d", c, i)
+					uri = fmt.Sprintf("/c20/c%02d/%04d", c, i%10000) // same length as the warm keys
 				case 2:
 					uri = fmt.Sprintf("/c20/u/%d", lr.Intn(6))
+				case 3, 4, 5:
+					// a key space larger than the small cache and than a shard's initial map: entries are
+					// created, evicted, reloaded and hit again all the time, by all clients
+					uri = fmt.Sprintf("/c20/warm/%03d", lr.Intn(600))
 				default:
 					uri = hot[lr.Intn(len(hot))]
 				}
@@ -411,57 +435,66 @@ func c20Proc(r *hx.Run, seconds int) {
 }
 
 func c20(r *hx.Run) {
-	r.Rule = "race-instrumented. (1) child process: in-process pike with two servers/caches (one of 64 entries backed by a store with occasional slow calls), T = 1 s and hit-for-pass 1 s on the real clock, 64 clients for N seconds on 12 hot keys, per-client cold keys and uncacheable keys with GET/HEAD/POST, six Accept-Encoding values and matching/non-matching validators, a purger through the admin API, and a reloader alternating two configurations through the same Reset/Start calls main.update uses; hook callbacks removed. Every response must be well-formed and equal to what the upstream produces for its key (bodies are a function of the URI, so any version is right; 304 only for matching validators). (2) directed schedule with unordered release of a woken waiter and the next request. (3) the real binary under 16 clients and a storm of admin PUT /config saves. All race logs (driver child, pike process) are parsed; reports with a pike frame are de-duplicated by outermost entry-point pair and each is a violation; a crash is a violation. Non-trivial/distinct = (label, encoding) combinations observed + directed schedule."
+	r.Rule = "race-instrumented. (1) child process: in-process pike with two servers/caches (one of 64 entries backed by a store with occasional slow calls), T = 1 s and hit-for-pass 1 s on the real clock, 64 clients for N seconds on 12 hot keys, 600 warm keys, per-client cold keys and uncacheable keys with GET/HEAD/POST, six Accept-Encoding values and matching/non-matching validators, a purger through the admin API, and a reloader alternating two configurations through the same Reset/Start calls main.update uses; hook callbacks removed. Every response must be well-formed and equal to what the upstream produces for its key (bodies are a function of the URI, so any version is right; 304 only for matching validators). (2) directed schedule with unordered release of a woken waiter and the next request. (1b) the same stress from a build without race instrumentation (about ten times the throughput; functional oracle only), once with the same mix and once with nine in ten requests on the warm keys (cache of 400 under 600 keys of equal length: high hit ratio under constant eviction). (3) the real binary under 16 clients and a storm of admin PUT /config saves. All race logs (driver child, pike process) are parsed; reports with a pike frame are de-duplicated by outermost entry-point pair and each is a violation; a crash is a violation. Non-trivial/distinct = (label, encoding) combinations observed + directed schedule."
 	r.Assume = []string{"a request landing between two steps of one reload may get pike's 503 'not found' (counted, judged by C16 for unchanged parts)", "the race detector sees only the interleavings produced"}
 	exe, _ := os.Executable()
-	seconds := r.Pick(12, 90)
-	rounds := r.Pick(1, 4)
-	for round := 0; round < rounds; round++ {
-		out := filepath.Join(r.Scratch, fmt.Sprintf("c20-%d.json", round))
-		cmd := exec.Command(exe, "child", "c20", fmt.Sprint(r.Seed*10+int64(round)), fmt.Sprint(seconds), out)
-		var stderr bytes.Buffer
-		cmd.Stderr = &stderr
-		cmd.Stdout = &stderr
-		timer := time.AfterFunc(time.Duration(seconds+120)*time.Second, func() { cmd.Process.Kill() })
-		err := cmd.Run()
-		timer.Stop()
-		buf, rerr := os.ReadFile(out)
-		if harnessFailure(err, rerr) {
-			// the child could not be started or its result file vanished: not an observation about pike
-			r.Inconclusive(fmt.Sprintf("child process could not be run: %v / %v", err, rerr))
-			continue
-		}
-		if err != nil || rerr != nil {
-			tail := stderr.String()
-			if i := strings.Index(tail, "panic:"); i >= 0 {
-				tail = tail[i:]
+	stress := func(bin, engine, mix string, seconds, rounds int) {
+		for round := 0; round < rounds; round++ {
+			out := filepath.Join(r.Scratch, fmt.Sprintf("c20-%s-%d.json", engine, round))
+			cmd := exec.Command(bin, "child", "c20", fmt.Sprint(r.Seed*10+int64(round)), fmt.Sprint(seconds), out, mix)
+			var stderr bytes.Buffer
+			cmd.Stderr = &stderr
+			cmd.Stdout = &stderr
+			timer := time.AfterFunc(time.Duration(seconds+120)*time.Second, func() { cmd.Process.Kill() })
+			err := cmd.Run()
+			timer.Stop()
+			buf, rerr := os.ReadFile(out)
+			if harnessFailure(err, rerr) {
+				// the child could not be started or its result file vanished: not an observation about pike
+				r.Inconclusive(fmt.Sprintf("child process could not be run: %v / %v", err, rerr))
+				continue
 			}
-			if len(tail) > 5000 {
-				tail = tail[:5000]
+			if err != nil || rerr != nil {
+				tail := stderr.String()
+				if i := strings.Index(tail, "panic:"); i >= 0 {
+					tail = tail[i:]
+				}
+				if len(tail) > 5000 {
+					tail = tail[:5000]
+				}
+				r.Violate("process_crashed", map[string]string{"engine": engine}, fmt.Sprintf("the stress process died: %v", err), tail, nil)
+				continue
 			}
-			r.Violate("process_crashed", map[string]string{"engine": "inproc"}, fmt.Sprintf("the stress process died: %v", err), tail, nil)
-			continue
+			var res c20Result
+			json.Unmarshal(buf, &res)
+			r.Eval(res.Requests)
+			r.Add("requests_"+engine, res.Requests)
+			r.Add("reloads", res.Reloads)
+			r.Add("purges", res.Purges)
+			r.Add("not_modified_answers", res.NotMod)
+			for k, v := range res.Labels {
+				r.Add("label_"+k, v)
+			}
+			for k, v := range res.Status {
+				r.Add("status_"+k, v)
+			}
+			for _, s := range res.Sigs {
+				r.Distinct(s)
+			}
+			for _, v := range res.Viol {
+				r.Violate(v.Kind, map[string]string{"engine": engine}, v.Text, v.Case, nil)
+			}
+			r.Sample(map[string]interface{}{"labels": res.Labels, "status": res.Status, "encodings": res.Encodings, "reloads": res.Reloads, "purges": res.Purges})
 		}
-		var res c20Result
-		json.Unmarshal(buf, &res)
-		r.Eval(res.Requests)
-		r.Add("requests", res.Requests)
-		r.Add("reloads", res.Reloads)
-		r.Add("purges", res.Purges)
-		r.Add("not_modified_answers", res.NotMod)
-		for k, v := range res.Labels {
-			r.Add("label_"+k, v)
-		}
-		for k, v := range res.Status {
-			r.Add("status_"+k, v)
-		}
-		for _, s := range res.Sigs {
-			r.Distinct(s)
-		}
-		for _, v := range res.Viol {
-			r.Violate(v.Kind, map[string]string{"engine": "inproc"}, v.Text, v.Case, nil)
-		}
-		r.Sample(map[string]interface{}{"labels": res.Labels, "status": res.Status, "encodings": res.Encodings, "reloads": res.Reloads, "purges": res.Purges})
+	}
+	stress(exe, "inproc", "mixed", r.Pick(12, 90), r.Pick(1, 4))
+	// the same stress without race instrumentation: about ten times the requests per second (and the
+	// allocator, sync.Pool and scheduler behave as in production), judged by the functional oracle only
+	if fast := os.Getenv("VERIF_FAST_BIN"); fast != "" {
+		stress(fast, "inproc_uninstrumented", "mixed", r.Pick(5, 60), r.Pick(1, 4))
+		stress(fast, "inproc_uninstrumented_warm", "warm", r.Pick(6, 60), r.Pick(1, 4))
+	} else {
+		r.Add("uninstrumented_stress_skipped", 1)
 	}
 	c20Directed(r, r.Pick(30, 300))
 	c20Proc(r, r.Pick(5, 40))
